@@ -333,14 +333,17 @@ impl Eq for HeapEntry {}
 
 impl PartialEq for HeapEntry {
     fn eq(&self, other: &Self) -> bool {
-        self.row == other.row
+        self.cmp(other) == Ordering::Equal
     }
 }
 
 impl Ord for HeapEntry {
     fn cmp(&self, other: &Self) -> Ordering {
-        // Reverse comparison because BinaryHeap is a max-heap but we want min
+        // Reverse comparison because BinaryHeap is a max-heap but we want min. Rows with
+        // equal sort keys come from the earlier run first (the in-memory buffer is the
+        // last run), so the result is the one the in-memory stable sort would give.
         compare_rows(&other.row, &self.row, &self.sort_keys)
+            .then_with(|| other.run_index.cmp(&self.run_index))
     }
 }
 
